@@ -141,6 +141,8 @@ class Seam:
         self._urandom = _random.Random(urandom_seed)
         self.urandom_calls = 0
         self.global_random_calls = 0
+        self._random_names = {}
+        self._random_refs = {}
 
     def new_name(self, base):
         n = self.names.get(base, 0)
@@ -187,7 +189,7 @@ class Seam:
     # ---- python random (module-level functions and Random methods)
     def _choices(self, inst, population, weights=None, *, cum_weights=None, k=1):
         pol = self.policy
-        src = "random-module" if inst is _random._inst else "random.Random@%x" % (id(inst) & 0xFFFF)
+        src = self._random_name(inst)
         if inst is _random._inst:
             self.global_random_calls += 1
         pol.n_draws += 1
@@ -205,7 +207,7 @@ class Seam:
 
     def _uniform(self, inst, a, b):
         pol = self.policy
-        src = "random-module" if inst is _random._inst else "random.Random@%x" % (id(inst) & 0xFFFF)
+        src = self._random_name(inst)
         if inst is _random._inst:
             self.global_random_calls += 1
         pol.n_draws += 1
@@ -213,6 +215,18 @@ class Seam:
         v = _real_uniform(inst, a, b)
         self.log_draw(src, "uniform", "real", v)
         return v
+
+    def _random_name(self, inst):
+        """Stable name of a random.Random instance: order of first use, never its address."""
+        if inst is _random._inst:
+            return "random-module"
+        key = id(inst)
+        name = self._random_names.get(key)
+        if name is None or self._random_refs.get(key) is not inst:
+            name = "random.Random#%d" % len(self._random_names)
+            self._random_names[key] = name
+            self._random_refs[key] = inst
+        return name
 
     def _module_random(self):
         self.global_random_calls += 1
